@@ -150,7 +150,8 @@ def c14(ctx):
     ctx.cov['exhaustive'] = False
     ctx.cov['exhaustive_in'] = 'generator orders (720 of 720) and flag subsets (64 of 64) per protocol; protocols are sampled'
     pool = rich_pool(ctx.seed, nproto, 'In')
-    pool += [p for p in gen.matrix_protos() if p.tag.startswith(('Mf', 'Md'))][:(12 if quick else 80)]
+    pool += [p for p in gen.matrix_protos() if p.tag.startswith(('Mf', 'Md', 'Mp'))][:(12 if quick else 80)]
+    pool += [p for p in gen.matrix_protos() if p.tag.startswith(('Mm', 'Ml'))][::(4 if quick else 1)]
     gens = snaps = 0
     for idx, p in enumerate(pool):
         text = dslprint.render(p)
